@@ -56,10 +56,11 @@ def rust_str(s, style=None) -> str:
 _FRAGS = None
 
 
-def frag(text: str) -> str:
+def frag(text: str, kind: str = None) -> str:
+    """kind: fragment specifier; None = alternate `expr` / `literal` (values), "meta" for a whole option such as `disabled`"""
     if _FRAGS is None:
         return text
-    _FRAGS.append(text)
+    _FRAGS.append((text, kind or ("expr" if len(_FRAGS) % 2 == 0 else "literal")))
     return "$f%d" % (len(_FRAGS) - 1)
 
 
@@ -106,10 +107,10 @@ class VM:
         if k in names:
             return "%s = %s" % (names[k], frag(rust_str(self.s, self.style)))
         if k in ("transparent", "disabled", "default"):
-            return k
+            return frag(k, "meta")
         if k == "aci":
             if self.b and not self.explicit:
-                return "ascii_case_insensitive"
+                return frag("ascii_case_insensitive", "meta")
             return "ascii_case_insensitive = %s" % frag("true" if self.b else "false")
         if k == "props":
             parts = []
@@ -290,6 +291,11 @@ def split_groups(items: list, groups: Optional[List[int]]) -> List[list]:
 VIS = {"inherited": "", "pub": "pub ", "pubcrate": "pub(crate) ", "pubsuper": "pub(super) "}
 
 
+# an attribute's arguments may be delimited by ( ), { } or [ ]: `#[strum{disabled}]` is the same attribute as `#[strum(disabled)]`
+_DELIMS = [("(", ")"), ("{", "}"), ("[", "]")]
+_DELIM_CYCLE = None       # set while rendering an item whose `attr_delims` asks for mixed delimiters
+
+
 def render_variant_attrs(v: Variant, indent="    ") -> str:
     """attributes of a variant in source order: docs stay where they are between strum groups"""
     lines = []
@@ -313,7 +319,8 @@ def render_variant_attrs(v: Variant, indent="    ") -> str:
             lines.append("%s#[%s]" % (indent, payload.s))
         else:
             for g in split_groups(payload, gi):
-                lines.append("%s#[strum(%s)]" % (indent, ", ".join(m.rust() for m in g)))
+                o_, c_ = _DELIMS[0] if not _DELIM_CYCLE else _DELIM_CYCLE[len(lines) % len(_DELIM_CYCLE)]
+                lines.append("%s#[strum%s%s%s]" % (indent, o_, ", ".join(m.rust() for m in g), c_))
     for m in v.dmetas:
         lines.append("%s#[strum_discriminants(strum(%s))]" % (indent, m.rust()))
     return "\n".join(lines)
@@ -344,7 +351,13 @@ def generics_decl(it: Item, bounds: str = "") -> Tuple[str, str, str]:
 
 def render_item(it: Item, derives: List[str], bounds: str = "", extra_attrs: List[str] = ()) -> str:
     """Rust source of the item with the given derive list (paths like `strum::EnumString`)."""
-    global _FRAGS
+    global _FRAGS, _DELIM_CYCLE
+    if getattr(it, "attr_delims", None) and _DELIM_CYCLE is None:
+        _DELIM_CYCLE = [_DELIMS[i] for i in it.attr_delims]
+        try:
+            return render_item(it, derives, bounds, extra_attrs)
+        finally:
+            _DELIM_CYCLE = None
     if getattr(it, "via_macro", False) and _FRAGS is None:
         _FRAGS = []
         try:
@@ -354,9 +367,9 @@ def render_item(it: Item, derives: List[str], bounds: str = "", extra_attrs: Lis
             _FRAGS = None
         if not frags:
             return body
-        params = ", ".join("$f%d:%s" % (i, "expr" if i % 2 == 0 else "literal") for i in range(len(frags)))
+        params = ", ".join("$f%d:%s" % (i, k_) for i, (_, k_) in enumerate(frags))
         mname = "mk_%s" % unraw(it.ident).lower()
-        return "macro_rules! %s { (%s) => {\n%s\n} }\n%s!(%s);" % (mname, params, body, mname, ", ".join(frags))
+        return "macro_rules! %s { (%s) => {\n%s\n} }\n%s!(%s);" % (mname, params, body, mname, ", ".join(t_ for t_, _ in frags))
     lines = []
     if derives:
         lines.append("#[derive(%s)]" % ", ".join(derives))
@@ -368,7 +381,8 @@ def render_item(it: Item, derives: List[str], bounds: str = "", extra_attrs: Lis
     elif it.repr:
         lines.append("#[repr(%s)]" % it.repr)
     for g in split_groups(it.metas, it.groups):
-        lines.append("#[strum(%s)]" % ", ".join(m.rust() for m in g))
+        o_, c_ = _DELIMS[0] if not _DELIM_CYCLE else _DELIM_CYCLE[len(lines) % len(_DELIM_CYCLE)]
+        lines.append("#[strum%s%s%s]" % (o_, ", ".join(m.rust() for m in g), c_))
     for m in it.dmetas:
         lines.append("#[strum_discriminants(%s)]" % m.rust())
     decl, wh, _ = generics_decl(it, bounds)
